@@ -25,20 +25,22 @@ Definition split (sep : N) (s : bytes) : list bytes := split_acc sep s [].
 Definition ascii_space (c : N) : bool :=
   (N.leb 9 c && N.leb c 13) || N.eqb c 32.
 
-(* length of the white-space token at the head of s, 0 if none *)
+(* length of the white-space token at the head of s, 0 if none.  Written with explicit byte tests (nth with default 0:
+   no white-space encoding contains a zero byte, so a short string never matches) *)
+Definition uni_space_third (e : N) : bool :=
+  (N.leb 128 e && N.leb e 138) || N.eqb e 168 || N.eqb e 169 || N.eqb e 175.
+
 Definition space_prefix_len (s : bytes) : nat :=
   match s with
   | c :: r =>
-    if ascii_space c then 1%nat else
-    match c, r with
-    | 194, d :: _ => if N.eqb d 133 || N.eqb d 160 then 2%nat else 0%nat
-    | 225, 154 :: 128 :: _ => 3%nat
-    | 226, 128 :: e :: _ =>
-        if (N.leb 128 e && N.leb e 138) || N.eqb e 168 || N.eqb e 169 || N.eqb e 175 then 3%nat else 0%nat
-    | 226, 129 :: 159 :: _ => 3%nat
-    | 227, 128 :: 128 :: _ => 3%nat
-    | _, _ => 0%nat
-    end
+    let d := nth 0 r 0 in let e := nth 1 r 0 in
+    if ascii_space c then 1%nat
+    else if N.eqb c 194 && (N.eqb d 133 || N.eqb d 160) then 2%nat
+    else if N.eqb c 225 && N.eqb d 154 && N.eqb e 128 then 3%nat
+    else if N.eqb c 226 && N.eqb d 128 && uni_space_third e then 3%nat
+    else if N.eqb c 226 && N.eqb d 129 && N.eqb e 159 then 3%nat
+    else if N.eqb c 227 && N.eqb d 128 && N.eqb e 128 then 3%nat
+    else 0%nat
   | [] => 0%nat
   end.
 
@@ -46,17 +48,14 @@ Definition space_prefix_len (s : bytes) : nat :=
 Definition space_suffix_len_rev (s : bytes) : nat :=
   match s with
   | c :: r =>
-    if ascii_space c then 1%nat else
-    match c, r with
-    | 133, 194 :: _ => 2%nat
-    | 160, 194 :: _ => 2%nat
-    | 128, 154 :: 225 :: _ => 3%nat
-    | 159, 129 :: 226 :: _ => 3%nat
-    | 128, 128 :: 227 :: _ => 3%nat
-    | e, 128 :: 226 :: _ =>
-        if (N.leb 128 e && N.leb e 138) || N.eqb e 168 || N.eqb e 169 || N.eqb e 175 then 3%nat else 0%nat
-    | _, _ => 0%nat
-    end
+    let d := nth 0 r 0 in let e := nth 1 r 0 in
+    if ascii_space c then 1%nat
+    else if (N.eqb c 133 || N.eqb c 160) && N.eqb d 194 then 2%nat
+    else if N.eqb c 128 && N.eqb d 154 && N.eqb e 225 then 3%nat
+    else if N.eqb c 159 && N.eqb d 129 && N.eqb e 226 then 3%nat
+    else if N.eqb c 128 && N.eqb d 128 && N.eqb e 227 then 3%nat
+    else if uni_space_third c && N.eqb d 128 && N.eqb e 226 then 3%nat
+    else 0%nat
   | [] => 0%nat
   end.
 
